@@ -26,6 +26,7 @@ pub struct Work {
     pub timeout: Duration,
     pub execs: u64,
     pub exec_wall: Duration,
+    pub stall_retries: u64,
 }
 
 pub fn rm_rf(p: &Path) {
@@ -62,6 +63,7 @@ impl Work {
             timeout: Duration::from_secs(20),
             execs: 0,
             exec_wall: Duration::ZERO,
+            stall_retries: 0,
         }
     }
 
@@ -120,7 +122,20 @@ impl Work {
         }
     }
 
+    /// Run one simulated execution. A watchdog timeout is only believed after a second,
+    /// longer attempt also times out (a stalled host must never be reported as a hang).
     pub fn run(&mut self, req: &ExecReq) -> ExecOut {
+        let budget = self.timeout + Duration::from_millis(250 * req.steps.len() as u64);
+        let first = self.run_once(req, budget);
+        if first.end != "timeout" {
+            return first;
+        }
+        self.stall_retries += 1;
+        std::thread::sleep(Duration::from_millis(500));
+        self.run_once(req, budget * 3)
+    }
+
+    fn run_once(&mut self, req: &ExecReq, budget: Duration) -> ExecOut {
         let t0 = Instant::now();
         self.clear_outputs();
         std::fs::write(&self.req_path, serde_json::to_vec(req).expect("ser req")).expect("write req");
@@ -133,7 +148,7 @@ impl Work {
             .stderr(Stdio::null())
             .spawn()
             .expect("spawn child");
-        let deadline = Instant::now() + self.timeout;
+        let deadline = Instant::now() + budget;
         let mut end = String::new();
         loop {
             match child.try_wait() {
